@@ -217,7 +217,7 @@ HEADER = "/- GENERATED by checklib/tr_builder.py from /repo/src — do not edit;
 
 
 def table_file(ns, sty, fty, rows, fields, extra=""):
-    items = ["(.%s, %s)" % (step, lean_row(n, row, fields)) + ("   -- fn %s" % name if step == "other" else "")
+    items = ["(.%s, %s)" % (step, lean_row(n, row, fields)) + ("   /- fn %s -/" % name if step == "other" else "")
              for step, name, n, row in rows]
     return (HEADER + "namespace CwMt.Gen.%s\nopen CwMt.Route\n\n/-- one row per method, in source order -/\n"
             "def steps : Table %s %s := %s\n%s\nend CwMt.Gen.%s\n" % (ns, sty, fty, C.lean_list(items, "  "), extra, ns))
